@@ -16,6 +16,15 @@ from plumpy import ToContext, WorkChain
 LOG = None
 
 
+def _execute(proc):
+    """``proc.execute()`` (run to completion on the re-entrant loop, inside the caller's step) with a watchdog: an inner process that
+    never terminates must not hang the outer step for ever."""
+    try:
+        proc.loop.run_until_complete(asyncio.wait_for(proc.step_until_terminated(), 3))
+    except asyncio.TimeoutError:
+        LOG.append([proc.inputs.get('tag', 'inner') if proc.inputs else 'inner', '<never terminated>', False, None, 'terminated'])
+
+
 class _Inner(WorkChain):
     @classmethod
     def define(cls, spec):
@@ -29,7 +38,7 @@ class _Inner(WorkChain):
             self.loop.call_soon(self.f.set_result, 'inner-value')
             self.to_context(ik=self.f)
         if self.inputs.get('depth', 1) > 1:
-            _Inner(inputs={'awaits': True, 'depth': 1, 'tag': 'inner2'}).execute()
+            _execute(_Inner(inputs={'awaits': True, 'depth': 1, 'tag': 'inner2'}))
 
     def b(self):
         if self.inputs.get('awaits', True):
@@ -58,10 +67,7 @@ class _Outer(WorkChain):
 
     def _inner(self):
         kind = self.inputs['inner']
-        if kind == 'proc':
-            _Plain().execute()
-        else:
-            _Inner(inputs={'awaits': kind == 'wc', 'depth': self.inputs['depth']}).execute()
+        _execute(_Plain() if kind == 'proc' else _Inner(inputs={'awaits': kind == 'wc', 'depth': self.inputs['depth']}))
 
     def s1(self):
         self.futs = {}
